@@ -279,8 +279,11 @@ def break_typedef_cycles(m):
             d["type"] = {"name": b"i32", "key": None, "val": None, "anns": []}
 
 
-def gen_program(ctx, rng, idx):
+def gen_program(ctx, rng, idx, fault=None):
+    """a valid program of 1-4 files; with [fault], the same with one semantic fault (G.FAULTS) injected into one
+    reachable file before rendering: ParseFrugal must reject it with the diagnostic of that check"""
     nfiles = rng.choice([1, 1, 2, 2, 3, 4])
+    gens = {}
     names = []
     for i in range(nfiles):
         stem = ("f%d_%d" % (idx, i)).encode()
@@ -302,10 +305,35 @@ def gen_program(ctx, rng, idx):
         extra = ["scope"] * rng.choice([0, 2, 3]) + ["service"] * rng.choice([0, 1, 2])
         m = gen.model(includes=incs, extra_kinds=extra)
         break_typedef_cycles(m)
+        if rng.random() < 0.3:
+            G.alias_throws(gen, m)          # throws through a typedef of an exception: valid
         models[names[i]] = m
         envs[names[i]] = m
+        gens[names[i]] = gen
+    if fault is not None:
+        # one file of the program (the root or a file it includes, directly or not) gets one semantic fault
+        reach = reachable_files(names[0], models)
+        victim = rng.choice(sorted(reach))
+        touched = G.inject_fault(gens[victim], models[victim], fault)
     files = {n: G.Renderer(rng).render(models[n]) for n in names}
-    return {"files": files, "root": names[0], "models": models}
+    prog = {"files": files, "root": names[0], "models": models}
+    if fault is not None:
+        prog.update({"mutated": True, "expect": "reject", "fault": fault, "fault_in": victim.decode(),
+                     "fault_at": touched.decode("utf8", "backslashreplace"), "expect_msg": G.FAULT_MSG[fault]})
+    return prog
+
+
+def reachable_files(root, models):
+    seen, todo = set(), [root]
+    while todo:
+        n = todo.pop()
+        if n in seen:
+            continue
+        seen.add(n)
+        for k, d in models[n]["decls"]:
+            if k == "include":
+                todo.append(os.path.normpath(os.path.join(os.path.dirname(n.decode()), d["value"].decode())).encode())
+    return seen
 
 
 def oracle_program(prog, resp):
@@ -347,6 +375,26 @@ def judge_case_files(prog, resp):
     return [2, files, prog["root"], code, tree]
 
 
+REPAIRED_CHECK_TEXTS = [
+    b"\nservice Svc7 extends NoSuchSvc7 { void ping() }\n",
+    b"\nservice Svc7 extends nosuchinc.Svc { void ping() }\n",
+    b"\nservice Svc7 extends Svc7 {}\n",
+    b"\nservice Svc7 extends Svc6 {}\nservice Svc6 extends Svc7 {}\n",
+    b"\nservice Svc7 extends Svc6 {}\nservice Svc6 extends Svc5 {}\nservice Svc5 extends Svc6 { void ping() }\n",
+    b"\nstruct NotExc7 {}\nservice Svc7 { void f() throws (1: NotExc7 e) }\n",
+    b"\nservice Svc7 { void f() throws (1: string e) }\n",
+    b"\nexception Exc7 {}\nservice Svc7 { void f() throws (1: list<Exc7> e) }\n",
+    b"\nenum En7 { A }\ntypedef En7 Alias7\nservice Svc7 { i32 f() throws (1: Alias7 e) }\n",
+    b"\nstruct Dup7 { 1: i32 a, 2: string a }\n",
+    b"\nunion Dup7 { 1: i32 a; 2: i32 b; 3: i64 a }\n",
+    b"\nexception Dup7 { 1: string msg, 2: string msg }\n",
+    b"\nservice Svc7 { void f(1: i32 a, 2: i32 a) }\n",
+    b"\nexception Exc7 {}\nexception Exc6 {}\nservice Svc7 { void f() throws (1: Exc7 a, 1: Exc6 b) }\n",
+    b"\nexception Exc7 {}\nservice Svc7 { void f() throws (1: Exc7 a, 2: Exc7 a) }\n",
+    b"\nservice Svc7 { void f(1: i32 a, 1: i32 b) }\n",
+]
+
+
 def mutate_program(rng, prog):
     """programs that ParseFrugal must reject (or at least answer in an orderly way): a semantic
     mutation of one file of a valid program"""
@@ -372,8 +420,18 @@ def mutate_program(rng, prog):
         t = t + b"\nservice Svc8 { oneway i32 f() }\n"
     else:
         t = t + b"\ntypedef list Bare9\n"
+    expect = None
+    if rng.random() < 0.45:
+        # the checks added by the repairs of validate, as appended text (the model-level faults of
+        # gen_program(fault=...) put the same constructs inside the generated declarations)
+        t = files[name] + rng.choice(REPAIRED_CHECK_TEXTS)
+        expect = "reject"
     files[name] = t
-    return {"files": files, "root": prog["root"], "models": prog["models"], "mutated": True}
+    out = {"files": files, "root": prog["root"], "models": prog["models"], "mutated": True}
+    if expect and name in reachable_files(prog["root"], prog["models"]):
+        out["expect"] = expect
+        out["fault"] = "appended invalid declaration"
+    return out
 
 
 def shrink_failure(ctx, model, rounds=8):
@@ -566,6 +624,9 @@ def run(ctx, br):
                           "hazard": hz})
     n_good = len(progs)
     progs += [mutate_program(rng, rng.choice(progs[:n_prog])) for _ in range(max(4, n_prog // 2))]
+    # semantic faults inside generated declarations: every kind in every run, then at random
+    n_faulty = len(G.FAULTS) * (1 if quick else 8)
+    progs += [gen_program(ctx, rng, 1000 + i, fault=G.FAULTS[i % len(G.FAULTS)]) for i in range(n_faulty)]
     # validation of scope prefixes (validateScopeTypes): a prefix naming a variable twice is rejected since the
     # repair of C11-K12; replayed by the judge on Model/ParserFiles.v validate_scopes like any other program
     for nm, txt, exp in ((b"dupvar.frugal", b"struct E {}\nscope Sc prefix a.{zone}.{zone} { op: E }\n", "reject"),
@@ -588,9 +649,12 @@ def run(ctx, br):
             if r.get("code", 0) >= 100 and not any(b"typedef list Bare9" in t for t in p["files"].values()):
                 why = "ParseFrugal crashed or hung: %s" % (r.get("panic") or r.get("msg"))
             elif p.get("expect") == "reject" and r.get("code") == 0:
-                why = "a scope prefix that names a variable twice was accepted"
+                why = "an invalid program was accepted (%s)" % p.get("fault", "a scope prefix that names a variable twice")
             elif p.get("expect") == "accept" and r.get("code") != 0:
                 why = "a scope prefix with distinct variables was rejected: %s" % r.get("msg")
+            elif p.get("expect_msg") and not re.search(p["expect_msg"], r.get("msg", "")):
+                why = "an invalid program (%s in %s) was rejected for another reason: %s" % (
+                    p["fault"], p["fault_in"], r.get("msg", "")[:300])
         else:
             why = oracle_program(p, r)
         if why:
@@ -598,7 +662,9 @@ def run(ctx, br):
             hz = p.get("hazard")
             ctx.violation("C10 oracle (ParseFrugal): " + why,
                           {"files": {n.decode(): t.decode("utf8", "backslashreplace") for n, t in p["files"].items()},
-                           "root": p["root"].decode(), "hazard": hz, "observed": {k: r.get(k) for k in ("code", "msg")}},
+                           "root": p["root"].decode(), "hazard": hz, "fault": p.get("fault"),
+                           "fault_in": p.get("fault_in"), "fault_at": p.get("fault_at"),
+                           "observed": {k: r.get(k) for k in ("code", "msg")}},
                           signature={"hazard": hz} if hz else None)
     json_fail = 0
     n_json = 0
@@ -652,6 +718,11 @@ def run(ctx, br):
         k = c["kind"] + ("/" + c["hazard"] if c["hazard"] else "")
         hist[k] = hist.get(k, 0) + 1
     hist["programs"] = len(progs)
+    hist["programs/valid"] = n_good
+    for p in progs:
+        if p.get("fault_in"):
+            hist["programs/fault/" + p["fault"]] = hist.get("programs/fault/" + p["fault"], 0) + 1
+    hist["programs/appended_invalid"] = len([p for p in progs if p.get("fault") == "appended invalid declaration"])
     distinct = len({c["text"] for c, r in zip(cases, resps) if c["kind"] == "valid" and r.get("code") == 0 and len(c["canon"]) and
                     sum(len(s) for s in c["canon"]) >= 1})
     sizes = [len(c["text"]) for c in cases]
